@@ -379,7 +379,21 @@ pub fn cmd_sink_modes(args: &[String]) -> i32 {
 /// kills itself at the K-th time crash point NAME is reached (or streams to
 /// the end if NAME is "none").
 pub fn cmd_sink_child(args: &[String]) -> i32 {
-    rustradio::verif::set_thread_stream_size(4096);
+    rustradio::verif::set_thread_stream_size(arg_usize(args, "--stream", 4096));
+    let chunk = arg_usize(args, "--chunk", 700);
+    let fsize = arg_usize(args, "--fsize", 0);
+    // the file system refuses to grow a file beyond `fsize` bytes: writes come back short, then
+    // fail (applied after the streams exist: their backing files are files too)
+    let apply_fsize = || {
+        if fsize > 0 {
+            // SAFETY: plain libc calls on our own process.
+            unsafe {
+                libc::signal(libc::SIGXFSZ, libc::SIG_IGN);
+                let rl = libc::rlimit { rlim_cur: fsize as u64, rlim_max: libc::RLIM_INFINITY };
+                libc::setrlimit(libc::RLIMIT_FSIZE, &rl);
+            }
+        }
+    };
     let path = arg_val(args, "--path").expect("--path");
     let point = arg_val(args, "--point").unwrap_or("none".to_string());
     let k = arg_usize(args, "--k", 1);
@@ -407,12 +421,13 @@ pub fn cmd_sink_child(args: &[String]) -> i32 {
     } else {
         let (ws, rs) = new_stream::<u32>();
         let mut s = FileSink::new(rs, &path, Mode::Create).unwrap();
+        apply_fsize();
         let mut sent = 0usize;
         let mut acked = 0usize;
         let mut rng = Rng::new(k as u64 + 77);
         while sent < n {
             let mut w = ws.write_buf().unwrap();
-            let m = w.len().min(1 + rng.below(700)).min(n - sent);
+            let m = w.len().min(1 + rng.below(chunk)).min(n - sent);
             for (j, x) in w.slice()[..m].iter_mut().enumerate() {
                 *x = (sent + j) as u32;
             }
@@ -421,10 +436,14 @@ pub fn cmd_sink_child(args: &[String]) -> i32 {
             writeln!(out, "fed {sent}").unwrap();
             out.flush().unwrap();
             let before = rs_used(&ws);
-            let _ = s.work();
+            let r = s.work();
             acked += before - rs_used(&ws);
             writeln!(out, "ack {acked}").unwrap();
             out.flush().unwrap();
+            if r.is_err() {
+                writeln!(out, "err").unwrap();
+                break;
+            }
         }
     }
     writeln!(out, "done").unwrap();
@@ -453,6 +472,11 @@ pub fn cmd_sink_crash(args: &[String]) -> i32 {
         if packet {
             cmd.arg("--packet");
         }
+        for k in ["stream", "chunk", "fsize"] {
+            if let Some(v) = c[k].as_u64() {
+                cmd.arg(format!("--{k}")).arg(v.to_string());
+            }
+        }
         cmd.stdout(std::process::Stdio::piped()).stderr(std::process::Stdio::null());
         let mut child = cmd.spawn().unwrap();
         let kill_us = c["kill_after_us"].as_u64();
@@ -476,7 +500,7 @@ pub fn cmd_sink_crash(args: &[String]) -> i32 {
             if let Some(v) = l.strip_prefix("fed ") {
                 fed = v.parse().unwrap_or(fed);
             }
-            if l == "done" {
+            if l == "done" && !so.lines().any(|x| x == "err") {
                 finished = true;
             }
         }
